@@ -98,6 +98,13 @@ HARNESSES = [
          unwindset={"lha_lh1_read.0": 61}, flags=["--arrays-uf-always"], timeout=1800, tier="thorough", mem_gb=6, units=["lib/lh1_decoder.c:lha_lh1_read,output_byte"],
          bounds="as copy.c12 with all copy lengths 3..60",
          stubs=["read_code: arbitrary symbol 0..313 or failure (walk.*, inv.*)", "read_offset: arbitrary 12-bit distance or failure (offset)"]),
+] + [
+    dict(name="copy.c60.pos%d%s" % (p0, tag), src="C02/copy.c", defines=["MAXCOUNT=60", "POS0=%d" % p0], rename_defs={"lib/lh1_decoder.c": ["read_code", "read_offset"]},
+         unwindset={"lha_lh1_read.0": 61}, flags=fl, timeout=600, mem_gb=6, units=["lib/lh1_decoder.c:lha_lh1_read,output_byte"],
+         bounds="real constants: arbitrary window content, write position %d (concrete), any literal or any copy of length 3..60 at any distance 0..4095" % p0,
+         stubs=["read_code: arbitrary symbol 0..313 or failure (walk.*, inv.*)", "read_offset: arbitrary 12-bit distance or failure (offset)"])
+    for p0, tag, fl in [(0, "", []), (4090, "", []), (0, ".uf", ["--arrays-uf-always"])]
+] + [
     dict(name="copy.init", src="C02/copy.c", entry="harness_init", rename_defs={"lib/lh1_decoder.c": ["read_code", "read_offset"]},
          unwindset={"memset.0": 4098}, timeout=120, units=["lib/lh1_decoder.c:init_ring_buffer"], bounds="all 4096 window positions (symbolic index)"),
     # 6. H02.params
